@@ -125,7 +125,7 @@ func r05_1(c *Ctx, rule string) {
 	as := map[string]bool{}
 	for _, call := range c.P.CallsTo(hc, "os.Lstat") {
 		if cl, ok := call.(*ssa.Call); ok {
-			as["("+cl.Name()+"#1==nil)"] = true
+			as["("+c.reg(cl)+"#1==nil)"] = true
 		}
 	}
 	_ = x
@@ -413,6 +413,15 @@ func sepTerminated(c *Ctx, v ssa.Value, allowEmpty bool, depth int) (bool, strin
 	}
 	if depth > 4 {
 		return false, "too deep"
+	}
+	if rs := eng.ResolveAll(v); len(rs) != 1 || rs[0] != v {
+		// a helper parameter or result: every value it can stand for
+		for _, r := range rs {
+			if ok, why := sepTerminated(c, r, allowEmpty, depth+1); !ok {
+				return false, why
+			}
+		}
+		return true, ""
 	}
 	switch x := v.(type) {
 	case *ssa.Const:
